@@ -472,6 +472,13 @@ def decide(prop, spec, results, tier, seed, t0):
            'known_findings_seen': sorted(printed_known), 'other_properties_seen': others,
            'level_b_drift_records': sum(r['stats'].get('drift', 0) for r in results),
            'distinct_violation_signatures': nviol}
+    if prop in ('C01', 'C03'):
+        try:
+            cov['unbounded_proofs_tlapm'] = run_proofs()
+        except Exception as ex:           # informational only
+            cov['unbounded_proofs_tlapm'] = {'ok': False, 'error': str(ex)[:300]}
+        if not cov['unbounded_proofs_tlapm'].get('ok'):
+            print('NOTE: tlapm did not re-establish the unbounded Level-A theorems (specification-level, no verdict depends on it)')
     write_evidence(prop, tier, seed, LEVEL, cov, time.time() - t0, nviol,
                    ['TLC and the Json/IOUtils community modules are trusted', 'the harness projection (observer, name/byte tables) is trusted to record what the code returned',
                     'bounded universe: %s' % ('6 paths, names {a,b}, depth 2, contents of <= 2 symbols')])
